@@ -32,6 +32,10 @@ def run(rep: Report, repo: Repo, tier: str) -> None:
         bindings.rule_module_doc_verbatim(rep, repo, "C12-R5v")
     with rep.isolated():
         fsrules.rule_topdir_test(rep, repo, "C12-R6")
+    # the module directive is named exactly like the module entry (the name the title shows)
+    from . import render
+    with rep.isolated():
+        render.rule_kind_rendering(rep, repo, "C12-R7", only={"ModuleDocumentation"})
 
 
 def rule_prefix_default(rep: Report, repo: Repo, rule: str) -> None:
